@@ -37,6 +37,9 @@ def generate(rng, tier):
            {"t": 0.0, "op": "host", "h": "H", "ip": "10.0.0.2", "layout": rng.choice(["default", "multi"])},
            {"t": 0.0, "op": "peer", "p": "X", "ip": "10.0.0.9", "ports": [5353, 5354]}]
     qu_free = rng.random() < 0.5
+    # QU questions only inside truncated queries: a copy of a held truncated query is ignored whatever its questions, so
+    # these runs are compared to the end although they contain QU questions
+    qu_only_tc = qu_free and rng.random() < 0.5
     ops.append({"t": 0.01, "op": "register", "h": "V", "svc": sv[0]})
     ops.append({"t": rng.choice([0.02, 1.5]), "op": "register", "h": "V", "svc": sv[1]})
     if not qu_free:
@@ -54,15 +57,17 @@ def generate(rng, tier):
         k = rng.random()
         if k < 0.45:
             qs = []
+            tcbit = int(rng.random() < (0.4 if qu_only_tc else 0.15))
             for _q in range(rng.choice([1, 1, 2, 3])):
                 s = rng.choice(sv + sh)
                 r = SvcRecords(s)
                 qn, qt = rng.choice([(s["type"], 12), (s["name"], 33), (s["name"], 16), (r.server, 1), (r.server, 28),
                                      (s["name"], 255)])
-                qs.append([qn, qt, int(not qu_free and rng.random() < 0.35)])
+                qu = (tcbit and rng.random() < 0.7) if qu_only_tc else (not qu_free and rng.random() < 0.35)
+                qs.append([qn, qt, int(qu)])
             known = [recs.ptr.to_json()] if rng.random() < 0.2 else []
             ops.append({"t": round(t, 6), "op": "send", "p": "X", "src_port": rng.choice([5353, 5353, 5353, 5354]),
-                        "msg": {"q": qs, "an": known, "id": rng.randrange(1, 60000), "tc": int(rng.random() < 0.15)}})
+                        "msg": {"q": qs, "an": known, "id": rng.randrange(1, 60000), "tc": tcbit}})
         elif k < 0.55:
             # probe for the victim's name (authority section)
             ops.append({"t": round(t, 6), "op": "send", "p": "X",
@@ -81,7 +86,8 @@ def generate(rng, tier):
     ops.sort(key=lambda o: o["t"])
     faults = {"max_delay_us": rng.choice([0, 2000, 100000]), "loop_delay_us": rng.choice([0, 300, 1000])}
     return {"ops": ops, "faults": faults, "end": round(t + 3.0, 6), "dup_p": rng.choice([1.0, 1.0, 0.5, 0.2]),
-            "dup_own": (not qu_free) and rng.random() < 0.1, "qu_free": qu_free}
+            "dup_own": (not qu_free) and rng.random() < 0.1, "qu_free": qu_free,
+            "b2b_gap_us": 0}
 
 
 def _run(scenario, seed, overrides, dup):
@@ -94,6 +100,7 @@ def _run(scenario, seed, overrides, dup):
         if dup:
             p = scenario.get("dup_p", 1.0)
             w.net.b2b_all = True
+            w.net.b2b_gap = scenario.get("b2b_gap_us", 0) / 1e6
 
             def filt(tx, rsock):
                 if rsock.owner.name not in ("V", "H"):
@@ -116,7 +123,11 @@ def _run(scenario, seed, overrides, dup):
             if rsock.owner.name in ("V", "H") and copy == 1:
                 m = wire.try_decode(data)
                 if m is not None and not m.is_response:
-                    qrx.append((rsock.owner.name, t, any(q.qu for q in m.questions), (addr[0].replace("::ffff:", ""), addr[1])))
+                    # (a truncated query is held for continuation packets, and an identical packet that arrives while it
+                    # is held is ignored whatever its questions: the QU exemption of the duplicate guard does not make
+                    # such a copy count twice, so it does not end the comparison)
+                    qrx.append((rsock.owner.name, t, any(q.qu for q in m.questions) and not m.tc,
+                                (addr[0].replace("::ffff:", ""), addr[1])))
 
         w.net.on_rx = on_rx
 
